@@ -57,6 +57,7 @@ static inline void bg__rest_add(bg_list *l, bg_bool isup, bg_bool isq, bg_bool i
 
 /* facts chosen at arrival: the value under the cursor belongs to a non-empty class */
 static inline void bg__it_arrive(bg_it *it) {
+  BG_ASSUME(BG_CNT_AX(it->r, it->idx)); /* the suffix is a list too */
   if (it->r.len > 0) {
     VertexIndex x = nondet_vertex();
     BG_ASSUME(BG_CNT_AX_SUM(it->r, it->idx));
@@ -369,6 +370,21 @@ static inline void bg__scratch_load(const bg_adj *a, bg_size i) {
   BG_ASSUME(bg_scratch_row.row.c.nP <= a->r.restInP);
   bg_scratch_row.valid = 1;
   bg_scratch_row.from = a;
+}
+
+/* ghost, first statement of an outlined loop: re-point the ghost pointers at the vector the
+   contract says they designate (same values; an assignment gives CBMC's dereferencing a
+   definite target where the precondition alone gives it an equality over a havocked pointer) */
+static inline void bg_ghost_adopt(bg_adj *a) {
+  __CPROVER_assert(bg_cur_adj == a, "ABSTRACTION adopt: loop contract must require bg_cur_adj");
+  bg_cur_adj = a;
+  if (bg_scratch_row.valid) {
+    __CPROVER_assert(bg_scratch_row.from == a && (bg_scratch_row.owner == a || bg_scratch_row.owner == 0),
+                     "ABSTRACTION adopt: scratch row belongs to another vector");
+    bg_scratch_row.from = a;
+    if (bg_scratch_row.owner != 0)
+      bg_scratch_row.owner = a;
+  }
 }
 
 static inline void bg_ghost_frontier_start(const bg_adj *a) {
